@@ -30,3 +30,22 @@ Example certificates_are_nontrivial :
   Nat.ltb 50 (length ebnf_V) = true /\ Nat.ltb 20 (length ebnf_Wany) = true /\ Nat.ltb 100 (length ebnf_E) = true /\
   ebnf_nul = [(4, 2); (2, 0)].
 Proof. vm_compute. repeat split; reflexivity. Qed.
+
+(* ---- viable prefixes (Cfg/LRViable.v): a witness tree per (non-terminal, class), a plan per reachable entry ---- *)
+From Verif Require Import Cfg.LRViable.
+Definition ebnf_wits := Eval vm_compute in all_wits ebnf_grammar ebnf_rules 16.
+Definition ebnf_plans := Eval vm_compute in
+  all_plans ebnf_grammar ebnf_table ebnf_start ebnf_past ebnf_rules ebnf_Wany ebnf_W ebnf_E ebnf_wits 40.
+
+Lemma ebnf_viable_check :
+  viable_check ebnf_grammar ebnf_table ebnf_start ebnf_past ebnf_rules ebnf_Wany ebnf_W ebnf_E ebnf_plans ebnf_wits = true.
+Proof. vm_compute. reflexivity. Qed.
+
+Lemma ebnf_no_shift_to_err : no_shift_to_err ebnf_table ebnf_err_state = true.
+Proof. vm_compute. reflexivity. Qed.
+
+Example viability_certificate_is_nontrivial :
+  Nat.ltb 60 (length ebnf_plans) = true /\ Nat.ltb 15 (length ebnf_wits) = true /\
+  existsb (fun e => match snd e with PReduce _ m _ => Nat.eqb m 1 | _ => false end) ebnf_plans = true /\
+  existsb (fun e => match snd e with PReduce _ m _ => Nat.leb 2 m | _ => false end) ebnf_plans = true.
+Proof. vm_compute. repeat split; reflexivity. Qed.
